@@ -431,9 +431,15 @@ def timeout_case(spec):
     M = sys.modules.get('moPepGen.cli.call_variant_peptide')
     try:
         paths = cv.write_case(case, wd)
-        ladder = dict(max_variants_per_node=(7, 1), additional_variants_per_misc=(2, 0), timeout_seconds=180)
-        with Recorder() as r0:
-            fa, _ = cvmon.execute(case, wd, paths, out='ok.fasta', **ladder)
+        ladder = dict(max_variants_per_node=(7, 1), additional_variants_per_misc=(2, 0), timeout_seconds=20)
+        try:
+            with Recorder() as r0:
+                fa, _ = cvmon.execute(case, wd, paths, out='ok.fasta', **ladder)
+        except Exception as e:
+            if 'Failed to finish transcript' in str(e):
+                # a real wall-clock timeout on every rung of the ladder (non-terminating circRNA graphs, C01's finding): no verdict
+                return {'skipped': True, 'counters': {'timeout_base_run_wallclock': 1}}
+            raise
         M = r0.M
         out0 = {s for _, s in fa}
         R0 = r0.units
